@@ -65,6 +65,13 @@ add("lang", "file", "int vf%d(int, int, ...); int vu%d(void) { return vf%d(1); }
     "struct e%d { int a; struct { int b; int a; }; };", "struct e%d { struct { int y; int x; }; int x; };", "union e%d { int a; float a; };",
     "int q%d(int a, int a);", "int q%d(int a, int (*g)(int), char a) { return 0; }", "double q%d = 0x1.0;", "float q%d = 0x.8f;")
 add("lang", "unit", "#line 1 2\nint x;\n", "# 3 4\nint x;\n")
+# storage-class specifier combinations of three and repeated specifiers (C11 6.7.1p2)
+add("lang", "file", "_Thread_local static extern int q%d;", "_Thread_local extern static int q%d;", "static _Thread_local extern int q%d;", "extern _Thread_local static int q%d;",
+    "_Thread_local static static int q%d;", "static _Thread_local static int q%d;", "_Thread_local extern extern int q%d;", "static static int q%d;", "extern extern int q%d;",
+    "_Thread_local _Thread_local int q%d;", "typedef extern int q%d;", "typedef _Thread_local int q%d;", "static typedef int q%d;", "extern static _Thread_local int q%d;",
+    "register int q%d;", "auto int q%d;", "_Thread_local int q%d(void);", "static _Thread_local int q%d(void) { return 0; }")
+add("lang", "block", "{ _Thread_local int tb%d; }", "{ _Thread_local static extern int tb%d; }", "{ static _Thread_local extern int tb%d; }", "{ extern _Thread_local int tb%d = 1; }",
+    "{ register static int tb%d; }", "{ auto static int tb%d; }", "{ typedef static int tb%d; }")
 # ---- entries added to reach diagnostic sites the evidence listed as uncovered
 add("lang", "file", "struct e%d { static int a; };", "int q%d = sizeof(static int);", "struct e%d { inline int a; };", "int q%d(inline int a);", "enum e%d : { A%d };", "struct ;",
     "struct 1 q%d;", "enum e%d : int; enum e%d : long { A%d };", "int q%d(_Alignas(8) int a);", "typedef _Alignas(8) int t%d;", "int q%d = sizeof(int x%d);",
